@@ -280,7 +280,7 @@ func TestVerif_C12(t *testing.T) {
 		return
 	}
 	nb := pick(r, 64, 1024)
-	per := pick(r, 6, 40)
+	per := pick(r, 12, 40)
 	nSteps := pick(r, 30, 50)
 	r.Parallel(nb, func(l *Local) {
 		rng := l.Rng
